@@ -43,7 +43,7 @@ def run_one(sid):
 
 def main():
     ids = sys.argv[1:] or sorted(os.listdir(os.path.join(ROOT, 'seeded')))
-    with ThreadPoolExecutor(max_workers=3) as ex:
+    with ThreadPoolExecutor(max_workers=int(os.environ.get('CAMPAIGN_JOBS', '3'))) as ex:
         for sid, res in ex.map(run_one, ids):
             print('%s: %s' % (sid, res[:260]))
 
